@@ -16,7 +16,7 @@ Definition f64_is_nan := F64.is_nan.
 Extraction Language OCaml.
 Extraction "dist_model.ml"
   x_f64_of_bits x_f64_to_bits x_f32_of_bits x_f32_to_bits x_f64_of_f32 x_f64_to_f32 f64_le f64_is_nan
-  f64_build f64_pvalue f64_score f64_scale f64_unscale_m f64_min_pvalue f64_roundtrip
+  f64_build f64_pvalue f64_score f64_scale f64_unscale_m f64_min_pvalue f64_roundtrip f64_sample
   f64_chk_table f64_chk_mono f64_chk_roundtrip
   f64_to_Q f32_to_Q f64_cell q_stage_a f64_ninf_agrees word_table tail_tab chk_bracket mass_defect
   f64_bsearch f64_index_exact f64_me common_k dy_cells at_k word_tableZ tail_tabZ tail_dy chk_bracket_dy chk_roundtrip_q
